@@ -5,6 +5,7 @@ import (
 	"context"
 	"fmt"
 	"reflect"
+	"runtime"
 	"strconv"
 	"strings"
 	"sync"
@@ -28,6 +29,8 @@ type SubSpec struct {
 	SlowUs        int  // delay before settling
 	HoldAll       bool // never settle; the controller cancels the subscription later
 	NestedTopic   int  // publish a fresh message to this topic before acking (-1: no)
+	AfterPubs     int  // phase 1 only: subscribe once this many Publish calls were started (a backlog has built up)
+	NestedFan     int  // on the first delivery additionally publish one message to each of this many other topics before acking
 }
 
 // PubSpec scripts one publisher goroutine: Calls sequential Publish calls of Batch messages each.
@@ -52,6 +55,7 @@ type Scenario struct {
 	// Parks: hook points at which the first arriving goroutine is held until the controller's interfering op ran.
 	ParkHook string
 	ParkOp   string // "close" | "cancel0" | "publish" | "subscribe"
+	Big      bool          // many messages: only the top-level trace is emitted (monitors), not the per-model conformance streams
 	Tag      string        // names a hand-written scenario (e.g. the reproduction of a known finding)
 	Wait     time.Duration // liveness bound (default 30s)
 }
@@ -153,7 +157,7 @@ func Run(sc Scenario) *Result {
 		return "0"
 	}
 
-	var pidCounter int64
+	var pidCounter, pubStarted int64
 	publish := func(t int, batch int, thread int) {
 		pid := int(atomic.AddInt64(&pidCounter, 1))
 		msgs := make([]*message.Message, batch)
@@ -164,6 +168,7 @@ func Run(sc Scenario) *Result {
 			us[i] = strconv.Itoa(u)
 		}
 		rec.Log("pc", itoa(pid), itoa(t), strings.Join(us, "+"), itoa(thread))
+		atomic.AddInt64(&pubStarted, 1)
 		out := "ok"
 		func() {
 			defer func() {
@@ -271,6 +276,12 @@ func Run(sc Scenario) *Result {
 				if spec.NestedTopic >= 0 {
 					publish(spec.NestedTopic, 1, 100+sid)
 				}
+				if spec.NestedFan > 0 && k == 0 {
+					// the property quantifies over all topic names: a receive loop that publishes to many other topics
+					for t := 0; t < spec.NestedFan; t++ {
+						publish(1000+t, 1, 100+sid)
+					}
+				}
 				if _, ok := nacks[u]; !ok {
 					n := spec.NackFirst
 					if spec.NackEvery > 1 && distinct%spec.NackEvery != 0 {
@@ -368,7 +379,13 @@ func Run(sc Scenario) *Result {
 		if s.Phase == 1 {
 			s, i := s, i
 			phase1.Add(1)
-			go func() { defer phase1.Done(); subscribe(s, i) }()
+			go func() {
+				defer phase1.Done()
+				for deadline := time.Now().Add(5 * time.Second); int(atomic.LoadInt64(&pubStarted)) < s.AfterPubs && time.Now().Before(deadline); {
+					runtime.Gosched()
+				}
+				subscribe(s, i)
+			}()
 		}
 	}
 	var closeDone []chan struct{}
@@ -389,6 +406,8 @@ func Run(sc Scenario) *Result {
 					if c != nil {
 						rec.Log("cx", "0")
 						c()
+						// the cancel takes effect in the unsubscribe goroutine: let it get as far as it can while the other side is held
+						time.Sleep(2 * time.Millisecond)
 					}
 				case "publish":
 					publish(0, 1, 200)
